@@ -128,8 +128,10 @@ class Aggregate(list):
             # Repeated children are passed as args (list members), not kwargs
             listitems = {type(arg).__name__.lower() for arg in args}
             for mutex in mutexes:
+                # N.B. an empty string is "no value" (the type converters
+                # store it as None), so it doesn't count as present
                 count = sum(
-                    [kwargs.get(m, None) is not None or m in listitems for m in mutex]
+                    [kwargs.get(m, None) not in (None, "") or m in listitems for m in mutex]
                 )
                 if not predicate(count):
                     kwargs_ = ", ".join(
